@@ -30,13 +30,15 @@ INF = float('inf')
 
 # ------------------------------------------------------------------------------------------------ tagged values
 def py_of(v):
-    """tagged JSON value -> Python object.  ['s',text] ['i',n] ['b',bool] ['n'] ['f',bits]"""
+    """tagged JSON value -> Python object.  ['s',text] ['i',n] ['b',bool] ['n'] ['f',bits] ['t',[items]] tuple ['l',[items]] list"""
     t = v[0]
     if t == 's': return v[1]
     if t == 'i': return int(v[1])
     if t == 'b': return bool(v[1])
     if t == 'n': return None
     if t == 'f': return lib.from_bits(int(v[1]))
+    if t == 't': return tuple(py_of(x) for x in v[1])
+    if t == 'l': return [py_of(x) for x in v[1]]
     raise ValueError(v)
 
 
@@ -56,6 +58,7 @@ def wire_pyval(v):
     if t == 'b': return 'bT' if v[1] else 'bF'
     if t == 'n': return 'N'
     if t == 'f': return 'f' + lib.hx(str(py_of(v)))
+    if t in ('t', 'l'): return t + lib.hx(str(py_of(v)))      # a sequence is ONE label value: its str() text
     raise ValueError(v)
 
 
@@ -451,6 +454,8 @@ BOOLS = [True, False]
 
 LEGACY_NAMES = ['l', 'a', 'b', 'method', 'code_2', '_x', 'Le', 'path']
 UTF8_NAMES = ['é', 'a.b', 'x y', '温度', 'l-1', 'ünï', '0a', 'a"b', '']
+SEQ_VALUES = [['t', [['s', 'a']]], ['l', [['s', 'a']]], ['t', [['s', 'a'], ['s', 'b']]], ['l', [['s', 'a'], ['s', 'b']]], ['t', []],
+              ['t', [['i', 1], ['s', 'x']]], ['l', [['n'], ['b', True]]], ['s', "('a',)"], ['s', "['a', 'b']"], ['s', "('a', 'b')"]]
 LABEL_VALUES = [['s', 'a'], ['s', 'b'], ['s', ''], ['s', '1'], ['i', 1], ['s', 'True'], ['b', True], ['b', False],
                 ['s', 'None'], ['n'], ['s', '1.0'], F(1.0), F(0.1), ['s', '0.1'], ['i', 0], ['i', -5], ['s', '-5'],
                 ['i', 10 ** 20], ['s', 'é ü'], ['s', 'x\ny'], ['s', 'a"b\\'], F(INF), ['s', 'inf'], F(float('nan')),
@@ -519,10 +524,15 @@ def gen_args(rng, spec, live):
         vals = list(rng.choice(live))             # re-address an existing child (by the values used before)
     else:
         vals = [rng.choice(LABEL_VALUES[-6:] if rng.random() < 0.6 else LABEL_VALUES) for _ in range(n)]
+    if rng.random() < 0.12:
+        vals = [rng.choice(SEQ_VALUES) if rng.random() < 0.6 else v for v in vals]     # tuples / lists as label VALUES
     if rng.random() < 0.5:
         # the same child through values that stringify equally
         vals = [restring(rng, v) for v in vals]
     r = rng.random()
+    if rng.random() < 0.06:
+        # all the values packed into ONE positional argument: one value, so a wrong count unless one label is declared
+        return [[rng.choice(['t', 'l']), vals]], []
     if r < 0.05:
         return vals + [['s', 'extra']], []
     if r < 0.09 and n:
@@ -598,6 +608,8 @@ def gen_history(rng, spec, length):
                 vals = [rng.choice(LABEL_VALUES) for _ in range(n)]
             if rng.random() < 0.08:
                 vals = vals + [['s', 'q']] if rng.random() < 0.5 else vals[:-1]
+            elif rng.random() < 0.06:
+                vals = [[rng.choice(['t', 'l']), vals]]
             ops.append(['remove', vals])
         else:
             act, arg = gen_action(rng, spec)
@@ -613,7 +625,7 @@ def gen_history(rng, spec, length):
 
 
 def alphabet(kind):
-    """a 12-op alphabet on the fixed registry  <kind>('m', labelnames=['l','k'])  (two labels, so that keyword order,
+    """a 13-op alphabet on the fixed registry  <kind>('m', labelnames=['l','k'])  (two labels, so that keyword order,
     removal of one of two children sharing a label value, and stringification all matter)"""
     A = [['s', 'a'], ['s', '1']]            # child (a,1)
     A_kw = [['k', ['i', 1]], ['l', ['s', 'a']]]           # the same child: keyword, permuted, int value
@@ -644,6 +656,7 @@ def alphabet(kind):
     ops.append(['remove', [['s', 'a'], ['i', 1]]])
     ops.append(['clear'])
     ops.append(call(A, [], 'touch', None))
+    ops.append(call([['t', A]], [], *acts[0]))                              # both values as ONE tuple: wrong count
     return ops
 
 
@@ -712,6 +725,17 @@ CORPUS = [
       ['remove', [['s', 'a'], ['s', '1']]], ['call', [['s', 'a'], ['s', '1']], [], 'inc', F(4.0)], ['clear'],
       ['call', [['s', 'a'], ['s', '2']], [], 'inc', F(8.0)], ['clear'], ['clear'],
       ['call', [['s', 'a'], ['s', '2']], [], 'inc', F(16.0)]]),
+    # a tuple / list is ONE label value (its str() text), positionally, by keyword and in remove(); never unpacked
+    ({'kind': 'counter', 'name': 'm', 'labelnames': ['l'], 'legacy': True},
+     [['call', [['t', [['s', 'a']]]], [], 'inc', F(1.0)], ['call', [], [['l', ['t', [['s', 'a']]]]], 'inc', F(2.0)],
+      ['call', [['s', "('a',)"]], [], 'inc', F(4.0)], ['call', [['s', 'a']], [], 'inc', F(8.0)],
+      ['call', [['l', [['s', 'a']]]], [], 'inc', F(16.0)], ['remove', [['t', [['s', 'a']]]]],
+      ['call', [['t', [['s', 'a']]]], [], 'touch', None], ['remove', [['s', 'a']]]]),
+    ({'kind': 'gauge', 'name': 'm', 'labelnames': ['l', 'k'], 'legacy': True},
+     [['call', [['t', [['s', 'a'], ['s', 'b']]]], [], 'inc', F(1.0)], ['call', [['l', [['s', 'a'], ['s', 'b']]]], [], 'inc', F(1.0)],
+      ['call', [['t', [['s', 'a']]], ['l', [['s', 'b']]]], [], 'inc', F(2.0)],
+      ['call', [], [['k', ['s', "['b']"]], ['l', ['s', "('a',)"]]], 'inc', F(4.0)],
+      ['remove', [['t', [['s', 'a'], ['s', 'b']]]]], ['remove', [['s', "('a',)"], ['l', [['s', 'b']]]]]]),
     # enum / info
     ({'kind': 'enum', 'name': 'm', 'labelnames': ['l'], 'legacy': True, 'states': ['a', 'b']},
      [['call', [['s', 'x']], [], 'state', 'b'], ['call', [['s', 'x']], [], 'state', 'zz'], ['call', None, None, 'state', 'a']]),
@@ -844,7 +868,7 @@ def run(ctx):
                 'negative/zero/duplicate bounds x enum states) in a fresh CollectorRegistry and a list of calls '
                 '(inc/dec/set/observe/reset/info/state addressed directly, positionally or by keyword, labels() alone, '
                 'remove, clear; amounts ordinary, >2^53, tiny, negative, +-Inf, NaN, ints (also ints that are no doubles: 2^53+1, 10^17+1, …, '
-                'before and after reset()), bools, on a bound and its neighbours); exhaustive = every word of length 3 (quick) / 4 (thorough) over a 12-call alphabet per type on a '
+                'before and after reset()), bools, on a bound and its neighbours); exhaustive = every word of length 3 (quick) / 4 (thorough) over a 13-call alphabet per type on a '
                 'two-label metric and of length 3 over a 9-call alphabet on the unlabelled metric; random to length 200; '
                 'observed after EVERY step (sorted samples with value bits, and the order-sensitive (name, labels) sequence); a history is non-trivial when some step changed the exposed samples; distinct by '
                 '(metric, history)')
